@@ -60,8 +60,6 @@ def make_cases(ctx, cid, en, flags):
         sub = {"id": cid + "t", "en": en, "decl": decl, "flags": flags, "kind": "trunc",
                "sexp": enumgen.case_sexp(cid + "t", "c12t", en, [["ints"] + [str(v) for v in tints]]),
                "cmd": "shoot.IsEnum[%s, int64](v) for v outside %s" % (T, kind)}
-    if kind == "int":
-        sub = None
     return main, sub
 
 
@@ -118,8 +116,6 @@ def run_cases(ctx, pairs, name="mod"):
 
 
 def sig(c, region, dk, im, m):
-    if region == "F_int_constraint" and im.get("compile") == "error":
-        return "F_int_constraint:compile=" + enumgen.compile_class((c.get("detail") or {}).get("compile", ""))
     kinds = sorted(set(k.split(":")[0] for k in dk))
     return "%s:%s" % (region, ",".join(kinds))
 
